@@ -9,6 +9,7 @@ its choice sequence only.
 """
 from __future__ import annotations
 
+import collections.abc
 import itertools
 import sys
 import types
@@ -34,13 +35,20 @@ class _VRandom:
 
   @staticmethod
   def shuffle(x):
-    if _VRandom.choice_points and len(x) > 1 and sched.active():
+    n = len(x)
+    if n > 1 and not hasattr(type(x), '__setitem__'):   # as random.shuffle does
+      raise TypeError(
+          f"'{type(x).__name__}' object does not support item assignment")
+    if _VRandom.choice_points and n > 1 and sched.active():
       k = sched.cur().choose(len(x), kind='shuffle', costs=[0] + [1] * (len(x) - 1))
       x[:] = x[k:] + x[:k]
     return None
 
   @staticmethod
   def sample(population, k):
+    if not isinstance(population, collections.abc.Sequence):
+      raise TypeError('Population must be a sequence.  '
+                      'For dicts or sets, use sorted(d).')
     population = list(population)
     if not 0 <= k <= len(population):   # as random.sample does
       raise ValueError('Sample larger than population or is negative')
